@@ -9,7 +9,8 @@ RULE = ("in-domain corpus = every quick-tier shard of C01-C15 (every API entry p
         "high-word wrap, cipher block counters at their word boundaries) on all three builds: no step may panic, every observation must equal the model and the ordered "
         "transcripts of the three builds must be identical shard by shard; misuse corpus = per entry point every documented-invalid argument shape (lengths one below / one "
         "above, zero, large; unsupported rounds; over-limit requests; reuse of one-shot objects): the observation must be a panic or error on all three builds, never a value; "
-        "thorough additionally runs the misuse corpus under valgrind memcheck; counts are summed over builds; distinct = program text")
+        "thorough additionally runs the misuse corpus under valgrind memcheck; counts are summed over builds; distinct = program text"
+        " Also: the counter-crossing programs on the +avx and native builds.")
 ASSUMPTIONS = ["reference models as in C01-C15; python BLAKE2 with preset counter validated against hashlib for counter 0",
                "panic messages are not compared, only panic vs value", "hash length counters (2^61 bytes) are neither reachable nor hookable: not explored",
                "Argon2 short salts/tags and the silent raise of too-small memory are documented as unchecked and outside the claim"]
